@@ -8,19 +8,21 @@ ENDBLOCK_RESET = dict(name="Reset", o="none", k="none", n=0, res="ok")
 
 ENDBLOCK_FORMULAS = dict(
     invariants=["C07_Sane"],
-    properties=["C07_TickNeverFails", "C07_OfflineExactly", "C07_OnlineChangedOnlyBy", "C07_Cursors", "C07_PowerRefreshed",
+    properties=["C07_TickNeverFails", "C07_OfflineExactly", "C07_OnlineChangedOnlyBy", "C07_PowerChangedOnlyBy", "C07_Cursors", "C07_PowerRefreshed",
                 "C07_SetRequest", "C07_SetsOnlyByTick", "C07_Pruning", "C07_GovResolved"],
-    p_properties=["P_C07_TickNeverFails", "P_C07_OfflineExactly", "P_C07_OnlineChangedOnlyBy", "P_C07_Cursors", "P_C07_PowerRefreshed",
+    p_properties=["P_C07_TickNeverFails", "P_C07_OfflineExactly", "P_C07_OnlineChangedOnlyBy", "P_C07_PowerChangedOnlyBy", "P_C07_Cursors", "P_C07_PowerRefreshed",
                   "P_C07_SetRequest", "P_C07_SetsOnlyByTick", "P_C07_Pruning", "P_C07_GovResolved"])
 
-STAKES = {"Stake2": {"o1": 4, "o2": 1}, "Stake3": {"o1": 5, "o2": 4, "o3": 1}, "StakeEq": {"o1": 1, "o2": 1, "o3": 1}}
+STAKES = {"Stake2": {"o1": 4, "o2": 1}, "Stake3": {"o1": 5, "o2": 4, "o3": 1}, "StakeEq": {"o1": 1, "o2": 1, "o3": 1},
+          "StakeBig": {"o1": 100, "o2": 60, "o3": 45}}
 O1, O2, O3 = ["o1"], ["o1", "o2"], ["o1", "o2", "o3"]
-GOVKINDS = ["dep", "pass", "rej", "veto", "bad", "exp"]
+GOVKINDS = ["dep", "YY", "NN", "NY", "VV", "AA", "-A", "AY", "--", "W", "bad", "exp"]   # vote patterns of the two validators, see EndBlock.tla
+GOVFEW = ["dep", "YY", "AA", "exp"]
 DEP, VOT, EXP = 2, 3, 1   # gov periods in blocks
 
 
-def consts(oracles, *, w=2, kinds=(), sets=2, batch=0, call=0, obs=(), ticks=(1,), removable=(), propkind=(), props=0):
-    return dict(Oracle=oracles, W=w, Kinds=list(kinds), MaxSets=sets, MaxBatch=batch, MaxCall=call, ObsSets=list(obs),
+def consts(oracles, *, w=2, kinds=(), sets=2, batch=0, call=0, obs=(), ticks=(1,), removable=(), propkind=(), props=0, adds=(), maxadds=0):
+    return dict(Oracle=oracles, AddSizes=list(adds), MaxAdds=maxadds, W=w, Kinds=list(kinds), MaxSets=sets, MaxBatch=batch, MaxCall=call, ObsSets=list(obs),
                 Ticks=list(ticks), Removable=list(removable), PropKind=list(propkind), MaxProps=props,
                 DepositBlocks=DEP, VotingBlocks=VOT, ExpBlocks=EXP)
 
@@ -41,7 +43,12 @@ def cfg(name, tiers, c, stake, chains, **kw):
 C_CALL = consts(O2, kinds=["call"], sets=2, call=1, removable=["o2"], ticks=(1, 3))   # outgoing bridge call past the window
 C_BATCH = consts(O2, kinds=["batch"], sets=2, batch=1, removable=["o2"])               # batch past the window
 C_PRUNE = consts(O2, sets=3, obs=[1, 2, 3], removable=["o2"])                          # oracle sets: slashing, refresh, pruning
-C_GOV = consts(O1, sets=1, propkind=GOVKINDS, props=2)                                 # gov end-blocker paths
+C_GOV = consts(O1, sets=1, propkind=GOVKINDS, props=1)                                 # gov end-blocker: every vote pattern
+C_GOV2 = consts(O1, sets=1, propkind=GOVFEW, props=2)                                  # two proposals interleaved
+# small stake changes between block ends (real MsgAddDelegate): +1 unit on 100/60 moves the normalised powers by
+# 0.47%, +24 by 9.78%, +25 by 10.14% (oracle-set request threshold 10%)
+C_STAKE = consts(O2, sets=2, adds=[1, 24, 25], maxadds=1)
+C_STAKE2 = consts(O2, sets=2, adds=[1, 24, 25], maxadds=2)
 C_DEV = consts(O2, kinds=["call"], sets=1, call=1)
 # thorough only
 C_BOTH = consts(O2, kinds=["batch", "call"], sets=2, batch=1, call=1, removable=["o2"])   # all three object kinds together
@@ -49,7 +56,9 @@ C_THREE = consts(O3, kinds=["call"], sets=2, call=1)                            
 C_CALL2 = consts(O2, kinds=["call"], sets=2, call=2, removable=["o2"])                    # two bridge calls (cursor restarts AT the last nonce)
 C_BATCH2 = consts(O2, kinds=["batch"], sets=2, batch=2, removable=["o2"])                 # two batches (block-height cursor)
 C_W3 = consts(O2, w=3, kinds=["call"], sets=2, call=1, removable=["o2"], ticks=(1, 2))    # SignedWindow 3
-C_GOV3 = consts(O1, sets=1, propkind=GOVKINDS, props=3)
+C_GOVALL2 = consts(O1, sets=1, propkind=GOVKINDS, props=2)
+C_GOV3 = consts(O1, sets=1, propkind=GOVFEW + ["bad", "NN"], props=3)
+C_STAKE3 = consts(O3, sets=2, adds=[1, 30], maxadds=1)
 
 Q, T, QT = ["quick"], ["thorough"], ["quick", "thorough"]
 ENDBLOCK_MC = [
@@ -58,6 +67,11 @@ ENDBLOCK_MC = [
     dict(name="mcbatch", tiers=QT, consts=C_BATCH, overrides={"Stake": "Stake2"}),
     dict(name="mcprune", tiers=QT, consts=C_PRUNE, overrides={"Stake": "Stake2"}),
     dict(name="mcgov", tiers=QT, consts=C_GOV, overrides={"Stake": "Stake2"}),
+    dict(name="mcgov2", tiers=QT, consts=C_GOV2, overrides={"Stake": "Stake2"}),
+    dict(name="mcstake", tiers=QT, consts=C_STAKE, overrides={"Stake": "StakeBig"}),
+    dict(name="mcgovall2", tiers=T, consts=C_GOVALL2, overrides={"Stake": "Stake2"}),
+    dict(name="mcstake2", tiers=T, consts=C_STAKE2, overrides={"Stake": "StakeBig"}),
+    dict(name="mcstake3", tiers=T, consts=C_STAKE3, overrides={"Stake": "StakeBig"}),
     dict(name="mcboth", tiers=T, consts=C_BOTH, overrides={"Stake": "Stake2"}),
     dict(name="mcthree", tiers=T, consts=C_THREE, overrides={"Stake": "Stake3"}),
     dict(name="mccall2", tiers=T, consts=C_CALL2, overrides={"Stake": "Stake2"}),
@@ -73,13 +87,17 @@ ENDBLOCK_GEN = [
     cfg("genbatch", Q, C_BATCH, "Stake2", ["eth"], rej_sample=3),
     cfg("genprune", Q, C_PRUNE, "Stake2", ["eth"], rej_sample=3),
     cfg("gengov", Q, C_GOV, "Stake2", ["eth"], rej_sample=3),
+    cfg("gengov2", Q, C_GOV2, "Stake2", ["eth"], rej_sample=3),
+    cfg("genstake", Q, C_STAKE, "StakeBig", ["eth"], rej_sample=3),
     # thorough: the same graphs with every rejected operation, on three chain modules (tron: own address format,
     # signature prefix and checkpoint encoders), plus the larger configurations (two batches and three proposals are
     # model-checked only: mcbatch2, mcgov3)
     cfg("gencallT", T, C_CALL, "Stake2", ALL3),
     cfg("genbatchT", T, C_BATCH, "Stake2", ALL3),
     cfg("genpruneT", T, C_PRUNE, "Stake2", ALL3),
-    cfg("gengovT", T, C_GOV, "Stake2", ["eth"]),
+    cfg("gengovT", T, C_GOVALL2, "Stake2", ["eth"], rej_sample=2),
+    cfg("genstakeT", T, C_STAKE2, "StakeBig", ["eth", "tron"], rej_sample=3),
+    cfg("genstake3", T, C_STAKE3, "StakeBig", ["bsc"], rej_sample=1),
     cfg("genboth", T, C_BOTH, "Stake2", ["eth"], rej_sample=2),
     cfg("genthree", T, C_THREE, "Stake3", ["tron"], rej_sample=1),
     cfg("gencall2", T, C_CALL2, "Stake2", ["bsc"], rej_sample=2),
@@ -88,9 +106,10 @@ ENDBLOCK_GEN = [
 
 ASSUMPTIONS = [
     "heights are relative: the abstraction reports min(currentHeight - creationHeight, W+1) per object and 'joined at or before the object' per (oracle, object); the code only compares height differences",
-    "SignedWindow is set to 2 (its minimum) by the real MsgUpdateParams so that objects age beyond the window within a few real end-blockers; gov periods are 2/3/1 blocks",
+    "SignedWindow is set to 2 (its minimum) by the real MsgUpdateParams so that objects age beyond the window within a few real end-blockers; gov periods are 2/3/1 blocks, quorum 60% (so that one of the two validators alone is below quorum)",
+    "normalised oracle-set powers are compared at 20 bits (store value / 4096); stake additions are chosen >= 10^-3 away from the 10% update threshold",
     "an observed oracle-set update is applied at keeper level (UpdateOracleSetExecuted, what an observed MsgOracleSetUpdatedClaim executes); the FX bridge token and the observed external height are set at keeper level; claim attestation is Attest.tla's subject",
-    "batches are never executed/cancelled and bridge calls never answered in this model (their deletion happens in claim handling, not at block end); oracles do not come back online (MsgAddDelegate) and do not unbond",
+    "batches are never executed/cancelled and bridge calls never answered in this model (their deletion happens in claim handling, not at block end); slashed/removed oracles do not come back online (MsgAddDelegate is used by online oracles only: a slashed one would have to pay 80% of its stake first) and do not unbond",
     "graph replay calls the application's real EndBlocker / PreBlocker / BeginBlocker on branches of the multistore; TestBlocks replays sampled paths through real FinalizeBlock+Commit and compares",
 ]
 
@@ -100,7 +119,7 @@ ASSUMPTIONS = [
 # so TLC *simulates* behaviours of the specification (random walks, EdgeDump prints every step) and TestBlocks
 # walks the printed sub-graph
 C_BLOCKS = consts(O2, kinds=["batch", "call"], sets=3, batch=1, call=1, obs=[1, 2], removable=["o2"], ticks=(1, 3),
-                  propkind=GOVKINDS, props=2)
+                  propkind=GOVKINDS, props=2, adds=[1], maxadds=1)
 BLOCK_SIM = {"dev": 60, "quick": 150, "thorough": 600}    # simulated behaviours (depth 24)
 BLOCK_PATHS = {"dev": 6, "quick": 8, "thorough": 12}      # paths per process
 BLOCK_PROCS = {"dev": 1, "quick": 3, "thorough": 4}       # processes per chain
